@@ -251,15 +251,50 @@ impl Qcow2Header {
             .with_fixint_encoding()
             .with_big_endian();
 
+        if header_buf.len() < size_of::<Qcow2RawHeader>() {
+            return Err("header buffer is too small".into());
+        }
+
         let mut header: Qcow2RawHeader =
             bincode.deserialize(&header_buf[0..size_of::<Qcow2RawHeader>()])?;
         if header.magic != Self::QCOW2_MAGIC {
             return Err("Not a qcow2 file".into());
         }
 
-        if header.version < 2 {
+        if header.version != 2 && header.version != 3 {
             let v = header.version;
             return Err(format!("qcow2 v{v} is not supported").into());
+        }
+
+        // version 2 headers end after snapshots_offset: what follows in the
+        // file isn't header fields
+        if header.version == 2 {
+            header.incompatible_features = 0;
+            header.compatible_features = 0;
+            header.autoclear_features = 0;
+            header.header_length = 72;
+            header.compression_type = 0;
+        } else if header.header_length < 104 {
+            let l = header.header_length;
+            return Err(format!("qcow2 v3 header length {l} is invalid").into());
+        } else if header.header_length == 104 {
+            // the compression type field isn't part of this header
+            header.compression_type = 0;
+        }
+
+        if header.crypt_method != 0 {
+            let m = header.crypt_method;
+            return Err(format!("encrypted qcow2 (crypt method {m}) is not supported").into());
+        }
+
+        if header.compression_type != 0 {
+            let t = header.compression_type;
+            return Err(format!("qcow2 compression type {t} is not supported").into());
+        }
+
+        if header.version == 3 && header.refcount_order > 6 {
+            let o = header.refcount_order;
+            return Err(format!("qcow2 refcount_order {o} is invalid").into());
         }
 
         // refcount_order is always 4 for version 2
@@ -293,6 +328,26 @@ impl Qcow2Header {
                 "qcow2 refcount table offset {reftable_offset:#x} is not cluster aligned"
             )
             .into());
+        }
+
+        // both tables are loaded into memory as a whole
+        let reftable_clusters = header.refcount_table_clusters as u64;
+        if reftable_clusters == 0
+            || reftable_clusters * cluster_size > Self::MAX_REFCOUNT_TABLE_SIZE as u64
+        {
+            return Err(format!(
+                "qcow2 refcount table of {reftable_clusters} clusters is not supported"
+            )
+            .into());
+        }
+
+        let l1_size = header.l1_size as u64;
+        if l1_size * size_of::<u64>() as u64 > Self::MAX_L1_SIZE as u64 {
+            return Err(format!("qcow2 L1 table of {l1_size} entries is too big").into());
+        }
+
+        if header.size == 0 {
+            return Err("qcow2 image of virtual size 0 is not supported".into());
         }
 
         let backing_filename = if header.backing_file_offset != 0 {
